@@ -17,7 +17,7 @@ from __future__ import absolute_import
 """
 Date and time utilities.
 """
-from time import mktime
+from time import mktime, time
 import datetime
 import calendar
 from email.utils import parsedate
@@ -56,8 +56,8 @@ def timestamp_before(weeks=0, days=0, hours=0, minutes=0, seconds=0):
     True
     """
     delta = datetime.timedelta(weeks=weeks, days=days, hours=hours, minutes=minutes, seconds=seconds)
-    before = datetime.datetime.now() - delta
-    return mktime(before.timetuple())
+    # on the epoch scale: local wall-clock arithmetic is off by an hour across a DST switch
+    return time() - delta.total_seconds()
 
 
 def timestamp_from_isodate(isodate):
